@@ -8,6 +8,8 @@ import (
 	"strings"
 	"time"
 
+	"github.com/zitadel/saml/pkg/provider/key"
+
 	"verif/harness/core"
 	"verif/harness/env"
 	"verif/harness/keys"
@@ -95,6 +97,9 @@ func c12Case(r *core.Run, idx int, rng *rand.Rand) {
 			a.Friendly = "fr" + plainString(rng, 3)
 		}
 		q.Attrs = append(q.Attrs, a)
+	}
+	if rng.Intn(6) == 0 && askForSomeValues(rng, q, u) {
+		r.Count("queries_naming_attribute_values", 1)
 	}
 	if rng.Intn(12) == 0 {
 		q.Attrs = nil
@@ -211,8 +216,18 @@ func c12Case(r *core.Run, idx int, rng *rand.Rand) {
 	default:
 		body = q.XML(rng)
 	}
+	// now and then the storage hands out a certificate and a private key that do not belong together (read in the
+	// middle of a key rotation): whatever is answered must still verify under the published certificate
+	torn := idx%13 == 5
+	if torn {
+		e.W.RespKey = &key.CertificateAndKey{Certificate: e.W.RespKey.Certificate, Key: keys.Get("idp_meta").RSA}
+		r.Count("queries_with_torn_key_pair", 1)
+	}
 	call := e.Do(env.Req{Method: "POST", Path: env.PathAttr, Body: body, CT: "text/xml", Host: host})
 	class := fmt.Sprintf("issuer_reg=%v|dest=%s|sig=%s|subject=%s|n_req=%d|host=%v", issuerReg, dest, sig, subj, len(q.Attrs), host != "")
+	if torn {
+		class += "|torn_key_pair"
+	}
 	desc := map[string]any{"class": class, "body": clipS(body, 2500), "user": u}
 	viol := func(clause, reason string) {
 		r.Violate(core.Violation{Clause: clause, Class: class, Reason: reason, Workload: wl, Index: idx, Case: desc, Observed: call.Describe()})
@@ -255,6 +270,9 @@ func c12Case(r *core.Run, idx int, rng *rand.Rand) {
 		}
 		return
 	}
+	if mut := e.W.Mutated(); mut != "" {
+		viol("storage_record_changed", mut)
+	}
 	if !dd.Success() {
 		if leaked {
 			viol("user_data_in_error_reply", "non-Success reply contains user data")
@@ -281,29 +299,14 @@ func c12Case(r *core.Run, idx int, rng *rand.Rand) {
 		viol("issuer", fmt.Sprintf("Issuer %q / %q, IdP entity ID %q", m.Issuer, m.AssertionIssuer, entity))
 	}
 	// reference filter, compared as sets
-	want := map[string]bool{}
-	for _, a := range ref {
-		if len(q.Attrs) == 0 {
-			want[a.key()] = true
-			continue
-		}
-		for _, qa := range q.Attrs {
-			if qa.Name == a.Name && qa.NameFormat == a.Format {
-				want[a.key()] = true
-			}
-		}
-	}
-	got := map[string]bool{}
-	for _, a := range msgAttrs(m) {
-		got[a.key()] = true
-	}
-	if d := setDiff(want, got); d != "" {
-		viol("attribute_filter", d)
+	d2, excluded := queryFilterDiff(ref, q.Attrs, msgAttrs(m))
+	if d2 != "" {
+		viol("attribute_filter", d2)
 	}
 	r.Count("filter_checked", 1)
 	if len(q.Attrs) > 0 {
 		r.Count("filter_checked_with_request_list", 1)
-		if len(want) < len(ref) {
+		if excluded {
 			r.Count("filter_excluded_something", 1)
 		}
 	}
